@@ -4,7 +4,7 @@
     EscapeTop.v (get_matches_with / do_parse / parse_top). *)
 From ClapModel Require Import Base.Bytes Base.Machine Base.Utf8 Lex.OsStrExtModel.
 From ClapModel Require Import Parse.Cmd Parse.Build Parse.Valid Parse.Matcher Parse.Errors Parse.Validator Parse.Parser.
-From ClapModel Require Import ParseProofs.Totality ParseProofs.Dispatch ParseProofs.Escape ParseProofs.EscapeWalk ParseProofs.EscapeStore ParseProofs.EscapeLevel ParseProofs.EscapeChain ParseProofs.EscapeDisplay ParseProofs.EscapeGlobals ParseProofs.EscapeTop ParseProofs.EscapeAny.
+From ClapModel Require Import ParseProofs.Totality ParseProofs.Dispatch ParseProofs.Escape ParseProofs.EscapeWalk ParseProofs.EscapeStore ParseProofs.EscapeLevel ParseProofs.EscapeChain ParseProofs.EscapeDisplay ParseProofs.EscapeGlobals ParseProofs.EscapeTop ParseProofs.EscapeAny ParseProofs.EscapeDdt.
 From Coq Require Import ZArith.
 From RecordUpdate Require Import RecordSet.
 Import RecordSetNotations.
@@ -700,3 +700,57 @@ Theorem C05_no_hyphen_exception : forall c t1 t2 ls st R1 R2,
   (forall a, In a (c_args c) -> a_hyphen a = false) -> hyphen_exception c t1 t2 ls st R1 R2 -> False.
 Proof. exact no_hyphen_exception. Qed.
 Print Assumptions C05_no_hyphen_exception.
+
+(** ** (3) [dont_delimit_trailing_values] as a GLOBAL setting holds at every depth
+
+    [_propagate_subcommand] (Build.v [propagate_subcommand], run by [_build_self] on every child) ors the
+    parent's [g_settings] into the child's: for every [plain] definition with the flag in its [g_settings]
+    (where [Command::dont_delimit_trailing_values] puts it), every level of every chain of built
+    subcommands has the setting. *)
+Theorem C05_global_ddt_every_level : forall f x,
+  plain x = true -> s_dont_delimit_trailing (c_gset x) = true -> ddt_all f (build_self x).
+Proof. exact ddt_all_of_global. Qed.
+Print Assumptions C05_global_ddt_every_level.
+
+Theorem C05_ddt_all_def : forall f c,
+  ddt_all (S f) c <-> (is_set s_dont_delimit_trailing c = true
+                       /\ forall name sc, build_subcommand c name = Some sc -> ddt_all f sc).
+Proof. exact (fun f c => conj (fun H => H) (fun H => H)). Qed.
+Print Assumptions C05_ddt_all_def.
+
+(** ... so [delivered] holds with the stored form of the tail equal to the tail ([delivered_v]): at whatever
+    depth the [--] was consumed, the last value group of the absorbing positional ends with the tail itself --
+    its first token included, whatever the positional had collected before the [--] *)
+Theorem C05_delivered_ddt : forall f c t m, ddt_all f c -> delivered f c t m -> delivered_v f c t m.
+Proof. exact delivered_ddt. Qed.
+Print Assumptions C05_delivered_ddt.
+
+Theorem C05_delivered_v_def : forall f c t m,
+  delivered_v (S f) c t m <->
+  (((forall a, sink_from c 1 a ->
+       ms_sub m = None /\
+       exists e gs early', fm_get (a_id a) (ms_args m) = Some e /\ m_raw e = gs ++ [early' ++ t]
+                           /\ m_source e = Some SCmdLine)
+    /\ (chainc c = true ->
+        ms_sub m = None /\ (forall a t0, tail_form c a t0 = Some t0)
+        /\ exists x pc, chain_filled c (fun y => fm_get y (ms_args m)) pc (x ++ t)))
+   \/ (exists name sc sm, build_subcommand c name = Some sc /\ ms_sub m = Some (c_name sc, sm) /\ delivered_v f sc t sm)
+   \/ (exists name vals sm, ms_sub m = Some (name, sm) /\ ms_sub sm = None /\
+                            fm_get ext_id (ms_args sm) = Some (ext_marg (vals ++ dashdash :: t)))).
+Proof. exact (fun f c t m => conj (fun H => H) (fun H => H)). Qed.
+Print Assumptions C05_delivered_v_def.
+
+Theorem C05_parse_top_delivered_ddt : forall c0 bin pre t m,
+  esc_class_g c0 = true -> s_dont_delimit_trailing (c_gset c0) = true ->
+  is_set s_no_binary_name c0 = false -> c_bin_name c0 <> None -> t <> [] ->
+  parse_top c0 (bin :: pre ++ dashdash :: t) = OOk m ->
+  delivered_v (top_fuel c0) (build_self c0) t m.
+Proof. exact parse_top_delivered_ddt. Qed.
+Print Assumptions C05_parse_top_delivered_ddt.
+
+Theorem C05_do_parse_delivered_ddt : forall c0 pre t m,
+  esc_class_g c0 = true -> s_dont_delimit_trailing (c_gset c0) = true -> t <> [] ->
+  do_parse c0 (pre ++ dashdash :: t) = OOk m ->
+  delivered_v (top_fuel c0) (build_self c0) t m.
+Proof. exact do_parse_delivered_ddt. Qed.
+Print Assumptions C05_do_parse_delivered_ddt.
